@@ -183,7 +183,7 @@ def read_lammps(f: Any, ndim: int) -> SingleSnapshot:
                 item = f.readline().split()
                 atom_index = int(item[0]) - 1
                 particle_type[atom_index] = int(item[1])
-                positions[atom_index] = [
+                positions[atom_index] = boxbounds[:, 0] + [
                     float(j) for j in item[2: ndim + 2]] * boxlength
 
         snapshot = SingleSnapshot(
